@@ -9,6 +9,7 @@
   ready queue twice.  Joint induction on the fuel of the four mutually recursive functions.
 -/
 import N2V.Lemmas.SchedTrace
+import N2V.Lemmas.SchedFrame
 import N2V.Lemmas.SchedWant
 namespace N2V.Sched
 
@@ -22,13 +23,14 @@ structure WRel (g : Graph) (par : Nat) (s s' : S) : Prop where
   frame : ∀ b, s.st b ≠ .unknown → s'.st b = s.st b
   mono : ∀ b, s.st b = .unknown → s'.st b = .unknown ∨ s'.st b = .want ∨ s'.st b = .ready
   tinv : ∀ shape, TInv g par shape s → TInv g par shape s'
+  frm : Frame s s'
 
 theorem WRel.refl {g : Graph} {par : Nat} {s : S} (inv : Inv g par s) : WRel g par s s :=
-  ⟨inv, fun _ _ => rfl, fun _ h => Or.inl h, fun _ t => t⟩
+  ⟨inv, fun _ _ => rfl, fun _ h => Or.inl h, fun _ t => t, Frame.refl s⟩
 
 theorem WRel.trans {g : Graph} {par : Nat} {a b c : S} (h1 : WRel g par a b) (h2 : WRel g par b c) :
     WRel g par a c := by
-  refine ⟨h2.inv, ?_, ?_, fun sh t => h2.tinv sh (h1.tinv sh t)⟩
+  refine ⟨h2.inv, ?_, ?_, fun sh t => h2.tinv sh (h1.tinv sh t), h1.frm.trans h2.frm⟩
   · intro x hx
     have := h1.frame x hx
     rw [h2.frame x (by rw [this]; exact hx), this]
@@ -86,7 +88,7 @@ theorem set_want_inv {g : Graph} {par : Nat} {s s' : S} {id : Nat} {new : St}
     · rw [h]; rcases hnew with h' | h' <;> rw [h'] <;> rfl
     · rw [h, h2]; rfl
   refine ⟨{ hcore with running := hlim.1, parBound := hlim.2.1, depthBound := hlim.2.2 }, ?_, ?_,
-          fun sh t => set_tinv t hcore.exact h hid hlegal (fun e => absurd e hn1.2)⟩
+          fun sh t => set_tinv t hcore.exact h hid hlegal (fun e => absurd e hn1.2), set_frm h⟩
   · intro b hb
     rw [hst]
     by_cases e : b = id
